@@ -302,5 +302,12 @@ def _guard_variant_on(f, event_bb, call_bb, variant):
     return False
 
 
+def rules_all(ctx, db):
+    rules(ctx, db)
+    if ctx.tier == "thorough" and ctx.cfg == "A":
+        from .. import witness
+        witness.obligations(ctx, "C05")
+
+
 def check(tier):
-    return engine.run("C05", tier, rules, NOT_DECIDED, [])
+    return engine.run("C05", tier, rules_all, NOT_DECIDED, [])
